@@ -257,6 +257,19 @@ func TestC07(t *testing.T) {
 			}
 		}
 	}
+	// the operand as its own increment tensor (exact functions only)
+	for _, op := range []string{"Neg", "Square", "Abs", "Sign", "Cube"} {
+		for _, d := range []DT{dtInt32, dtF64, dtF32, dtInt8} {
+			op, d := op, d
+			if !opSupports("unary", op, d) {
+				continue
+			}
+			cell(t, "C07", "EW", "unary/"+op+"/"+d.Name+"/incrA", nCases(10, 150), func(rt *rapid.T) Case {
+				c := genUnaryCase(rt, "C07", op, d, "incrA", []string{"contig", "contig", "leadsliced", "lazyT"})
+				return c
+			})
+		}
+	}
 	for _, op := range unaryOps {
 		for _, d := range c07DTs() {
 			if !opSupports("unary", op, d) {
